@@ -4,6 +4,7 @@ import ast
 
 from ..model import AnalysisError, callee, norm, src, walk_no_nested, iter_child_stmts, kwarg, module_table, dotted
 from ..cfg import CFG, ReachingDefs
+from .. import pathcond
 from . import c11
 
 
@@ -197,12 +198,11 @@ def r33(ctx, core, api):
     ctx.ob('R3.3', 'core.read_data_page:definition-bytes-skipped-only-under-skip_nulls', ok, '', core.loc(f))
     rc = core.func('read_col')
     cfg2 = CFG(rc)
-    setters = [s for s in iter_child_stmts(rc.body) if isinstance(s, ast.Assign) and norm(s) == 'skip_nulls = True']
-    ok = len(setters) == 1
-    if ok:
-        tests = [e.test for e, fld in cfg2.enclosing_tests(setters[0]) if isinstance(e, ast.If) and fld == 'body']
-        conj = [norm(v) for t in tests for v in (t.values if isinstance(t, ast.BoolOp) and isinstance(t.op, ast.And) else [t])]
-        ok = 'selfmade' in conj and any('null_count' in c and '== 0' in c for c in conj)
+    setters = [s for s in iter_child_stmts(rc.body) if isinstance(s, ast.Assign) and any(norm(t) == 'skip_nulls' for t in s.targets)]
+    # (the condition under which the flag ends up true, however it is spelled: if/else with constants, bool(c), c)
+    tr = pathcond.truth_of(rc, 'skip_nulls')
+    ok = tr is not None and pathcond.requires(tr, lambda a: a == 'selfmade') and \
+        pathcond.requires(tr, lambda a: 'null_count' in a and ('== 0' in a or '0 ==' in a))
     ctx.ob('R3.3', 'core.read_col:skip_nulls-requires-selfmade-and-zero-null-count', ok,
            'skipping the definition levels assumes fastparquet\'s own fixed-size level block', core.loc(setters[0]) if setters else core.loc(rc))
     call = [c for c in ast.walk(rc) if isinstance(c, ast.Call) and callee(c) == 'read_data_page']
